@@ -138,8 +138,32 @@ def _classify_tf(ctx, t):
 # ------------------------------------------------------------------------------------------------
 
 
+_BLAS_LIMITED = []
+
+
+def _limit_blas_threads():
+    """4x4 products/inverses: BLAS worker threads only add spinning (measured: sys time > user time, 2x wall).
+
+    Results are unaffected. The BLAS library is only visible to threadpoolctl after its first use, hence the warm-up.
+    """
+    if _BLAS_LIMITED:
+        return
+    _BLAS_LIMITED.append(True)
+    import numpy as np
+
+    np.linalg.inv(np.eye(4)).dot(np.eye(4))
+    try:
+        import threadpoolctl
+
+        threadpoolctl.threadpool_limits(1)
+    except ImportError:
+        pass
+
+
 def _lib():
     import numpy as np
+
+    _limit_blas_threads()
     from perception_eval.common.schema import FrameID
     from perception_eval.common.transform import HomogeneousMatrix, TransformDict, TransformKey
     from pyquaternion import Quaternion
